@@ -77,7 +77,11 @@ func execute(s props.Scenario, prop, tier string, runIdx, seed uint64, tape *cor
 	out.Sample = r.Sample
 	if len(out.Violations) > 0 || keepTape || out.Harness != "" {
 		out.Tape = append([]uint64(nil), tape.Used()...)
-		out.TraceTail = r.Trace.Tail(60)
+		n := 60
+		if v := os.Getenv("VERIF_TRACE_TAIL"); v != "" {
+			fmt.Sscan(v, &n)
+		}
+		out.TraceTail = r.Trace.Tail(n)
 	}
 	out.WallMs = time.Since(t0).Milliseconds()
 	return out
